@@ -117,18 +117,27 @@ class SchemaCache:
         return self.c[key]
 
 
-def trace_wire(chk, events, name="Trace_Wire", batch=8000):
+def trace_wire(chk, events, name="Trace_Wire", batch=8000, max_bytes=12_000_000):
     """TLC judges every recorded event; returns {id: verdict}.  TLC holds the whole event file in memory, so large sets
     of events go in several runs."""
     if not events:
         return {}
     v = {}
-    for b in range(0, len(events), batch):
-        part = events[b:b + batch]
+    parts, cur, size = [], [], 0
+    for e in events:               # a batch is bounded by events and by bytes (reflection records are large)
+        line = json.dumps(e)
+        if cur and (len(cur) >= batch or size + len(line) > max_bytes):
+            parts.append(cur)
+            cur, size = [], 0
+        cur.append(line)
+        size += len(line)
+    if cur:
+        parts.append(cur)
+    for b, part in enumerate(parts):
         path = os.path.join(chk.workdir, "events-%d-%d.ndjson" % (len(os.listdir(chk.workdir)), b))
         with open(path, "w") as f:
-            for e in part:
-                f.write(json.dumps(e) + "\n")
+            for line in part:
+                f.write(line + "\n")
         res = tlc.run("Trace_Wire", workdir=chk.workdir, env={"TRACE_FILE": path}, timeout=2400, heap="4g")
         chk.add_tlc(res, "%s[%d events]" % (name, len(part)))
         v.update({x["id"]: x for x in res.verdicts})
